@@ -17,12 +17,15 @@ import (
 	"math/rand"
 	"os"
 	"sort"
+	"strings"
 	"sync"
+	"sync/atomic"
 	"time"
 
 	pb "github.com/jamf/regatta/regattapb"
 	"github.com/jamf/regatta/storage"
 	serrors "github.com/jamf/regatta/storage/errors"
+	"github.com/jamf/regatta/storage/kv"
 	"github.com/jamf/regatta/storage/table"
 	"github.com/lni/dragonboat/v4"
 
@@ -82,6 +85,7 @@ func main() {
 		run(r, caseID{"race", r.Seed*2_000_003 + int64(i), nodes})
 	}
 	run(r, caseID{"diff", r.Seed, 0})
+	run(r, caseID{"interleave", r.Seed*5_000_003 + 1, 1})
 	if rep := racelog.Scan(); rep != nil {
 		for sig, n := range rep.Regatta {
 			r.Violation(sig, fmt.Sprintf("data race report with regatta frames (x%d): %s", n, rep.Samples[sig]), nil)
@@ -98,6 +102,7 @@ func main() {
 	r.FloorCount("reconcile_checks", int64(r.Pick(5, 50)))
 	r.FloorCount("create_races", int64(r.Pick(15, 100)))
 	r.FloorCount("diff_cases", int64(r.Pick(2000, 50000)))
+	r.FloorCount("id_allocations_interleaved_at_the_sequence", int64(r.Pick(6, 20)))
 	r.Finish()
 }
 
@@ -109,6 +114,8 @@ func run(r *ev.Run, id caseID) {
 		runRace(r, id)
 	case "diff":
 		runDiff(r, id)
+	case "interleave":
+		runInterleave(r, id)
 	}
 }
 
@@ -439,9 +446,12 @@ func runRace(r *ev.Run, id caseID) {
 	}
 	defer c.Close()
 	allIDs := map[uint64]string{}
-	for round, n := 0, r.Pick(20, 30); round < n; round++ {
+	for round, n := 0, r.Pick(36, 80); round < n; round++ {
 		k := 2 + g.Intn(7)
-		sameName := g.Intn(3) > 0
+		sameName := g.Intn(3) == 0
+		if !sameName {
+			k = 2 + g.Intn(3) // few racers: a create is then likely to overlap a restore's id allocation
+		}
 		var wg sync.WaitGroup
 		type res struct {
 			name string
@@ -457,12 +467,35 @@ func runRace(r *ev.Run, id caseID) {
 			}
 			out[i].name = name
 			e := c.Nodes[i%len(c.Nodes)].Engine
+			// id allocations also race through Restore (which does not take the manager's lock):
+			// in rounds with distinct names every third racer restores an empty stream instead
+			restore := !sameName && i%2 == 1
+			if restore {
+				out[i].name = fmt.Sprintf("race-%d-restored-%d", round, i)
+			}
 			wg.Add(1)
 			go func(i int) {
 				defer wg.Done()
 				<-start
+				if restore {
+					rd, cleanup, err := cluster.SnapshotStream(out[i].name, nil, nil)
+					if err != nil {
+						out[i].err = err
+						return
+					}
+					out[i].err = e.Restore(out[i].name, rd)
+					cleanup()
+					if out[i].err == nil {
+						at, err := e.GetTable(out[i].name)
+						out[i].t, out[i].err = at.Table, err
+					}
+					return
+				}
 				out[i].t, out[i].err = e.CreateTable(out[i].name)
 			}(i)
+			if restore {
+				r.Count("race_restores", 1)
+			}
 		}
 		close(start)
 		wg.Wait()
@@ -470,6 +503,12 @@ func runRace(r *ev.Run, id caseID) {
 		var desc []string
 		for _, o := range out {
 			desc = append(desc, fmt.Sprintf("%s:%v", o.name, o.err))
+			if o.err != nil {
+				r.Distinct("race_error_kinds", fmt.Sprint(o.err))
+				if strings.Contains(o.err.Error(), "version mismatch") {
+					r.Count("race_allocations_that_lost_the_id_sequence_cas", 1)
+				}
+			}
 			if o.err == nil {
 				succ[o.name]++
 				if prev, dup := allIDs[o.t.ClusterID]; dup {
@@ -492,13 +531,30 @@ func runRace(r *ev.Run, id caseID) {
 			return
 		}
 		seen := map[string]int{}
+		byID := map[uint64]string{}
 		for _, t := range ts {
 			seen[t.Name]++
+			for _, idv := range []uint64{t.ClusterID, t.RecoverID} {
+				if idv == 0 {
+					continue
+				}
+				if prev, dup := byID[idv]; dup && prev != t.Name {
+					r.Violation("two-catalogue-entries-share-a-shard-id", fmt.Sprintf("after racing creations/restores the catalogue lists %q and %q under the same shard id %d", prev, t.Name, idv), witness{Case: id, Ops: desc})
+					return
+				}
+				byID[idv] = t.Name
+			}
 		}
 		for n := range succ {
 			if seen[n] != 1 {
 				r.Violation("created-table-missing-from-list", fmt.Sprintf("%q was created successfully but is listed %d times", n, seen[n]), witness{Case: id, Ops: desc})
 				return
+			}
+		}
+		if os.Getenv("C14_DEBUG") != "" {
+			fmt.Fprintln(os.Stderr, "RACE", desc)
+			for _, t := range ts {
+				fmt.Fprintf(os.Stderr, "   LISTED %s cluster=%d recover=%d\n", t.Name, t.ClusterID, t.RecoverID)
 			}
 		}
 		r.Count("create_races", 1)
@@ -585,4 +641,142 @@ func keys(m map[uint64]bool) []uint64 {
 	}
 	sort.Slice(out, func(i, j int) bool { return out[i] < out[j] })
 	return out
+}
+
+// gateStore wraps the real Raft-backed catalogue store; when armed it parks the caller right
+// after it has READ the id sequence, so that another allocation can be placed exactly between the
+// read and the write of the sequence (the window a distributed race has to hit).
+type gateStore struct {
+	inner  *kv.RaftStore
+	armed  atomic.Bool
+	parked chan struct{}
+	resume chan struct{}
+}
+
+func (g *gateStore) Exists(key string) (bool, error)                    { return g.inner.Exists(key) }
+func (g *gateStore) Set(key, value string, ver uint64) (kv.Pair, error) { return g.inner.Set(key, value, ver) }
+func (g *gateStore) Delete(key string, ver uint64) error                { return g.inner.Delete(key, ver) }
+func (g *gateStore) GetAll(pattern string) ([]kv.Pair, error)           { return g.inner.GetAll(pattern) }
+func (g *gateStore) Get(key string) (kv.Pair, error) {
+	p, err := g.inner.Get(key)
+	if key == "/tables/sys/idseq" && g.armed.CompareAndSwap(true, false) {
+		g.parked <- struct{}{}
+		<-g.resume
+	}
+	return p, err
+}
+
+// runInterleave places a second id allocation exactly between the read and the write of the id
+// sequence of a first one (create vs create, restore vs create, create vs restore), through a second
+// real table.Manager on the same NodeHost whose catalogue store is gated.
+func runInterleave(r *ev.Run, id caseID) {
+	g := rand.New(rand.NewSource(id.Seed))
+	c, err := cluster.Start(cluster.Opts{Nodes: 1})
+	if err != nil {
+		r.Inconclusive("engine start: " + err.Error())
+		return
+	}
+	defer c.Close()
+	e := c.Nodes[0].Engine
+	gs := &gateStore{inner: &kv.RaftStore{NodeHost: e.NodeHost, ClusterID: 1000}, parked: make(chan struct{}), resume: make(chan struct{})}
+	cfg := c.Nodes[0].Cfg
+	m2 := table.NewManager(e.NodeHost, cfg.InitialMembers, gs, table.Config{NodeID: cfg.NodeID, Table: table.TableConfig(cfg.Table), Meta: table.MetaConfig(cfg.Meta)})
+	var assigned []uint64
+	for round, n := 0, r.Pick(9, 30); round < n; round++ {
+		kind := []string{"create-vs-create", "restore-vs-create", "create-vs-restore"}[round%3]
+		a, b := fmt.Sprintf("il-%d-a", round), fmt.Sprintf("il-%d-b", round)
+		w := witness{Case: id, Ops: []string{kind, "first allocation (gated manager) reads the id sequence", "second allocation runs to completion", "first allocation writes the id sequence"}}
+		type res struct {
+			id  uint64
+			err error
+		}
+		first := make(chan res, 1)
+		gs.armed.Store(true)
+		go func() {
+			if kind == "restore-vs-create" {
+				rd, cleanup, err := cluster.SnapshotStream(a, nil, nil)
+				if err != nil {
+					first <- res{0, err}
+					return
+				}
+				err = m2.Restore(a, rd)
+				cleanup()
+				first <- res{0, err}
+				return
+			}
+			t, err := m2.CreateTable(a)
+			first <- res{t.ClusterID, err}
+		}()
+		select {
+		case <-gs.parked:
+		case rr := <-first:
+			gs.armed.Store(false)
+			r.Inconclusive(fmt.Sprintf("%s: the first allocation finished without reading the id sequence (%v)", kind, rr.err))
+			continue
+		case <-time.After(30 * time.Second):
+			r.Inconclusive("gated allocation never reached the id sequence")
+			return
+		}
+		var second res
+		if kind == "create-vs-restore" {
+			rd, cleanup, err := cluster.SnapshotStream(b, nil, nil)
+			if err == nil {
+				err = e.Restore(b, rd)
+				cleanup()
+			}
+			second.err = err
+		} else {
+			t, err := e.CreateTable(b)
+			second = res{t.ClusterID, err}
+		}
+		gs.resume <- struct{}{}
+		var fr res
+		select {
+		case fr = <-first:
+		case <-time.After(90 * time.Second):
+			r.Inconclusive("gated allocation did not finish")
+			return
+		}
+		_ = g
+		// judge through the catalogue: no two entries share a shard id, ids only grow
+		ts, err := e.GetTables()
+		if err != nil {
+			r.Inconclusive("list: " + err.Error())
+			return
+		}
+		byID := map[uint64]string{}
+		for _, t := range ts {
+			for _, idv := range []uint64{t.ClusterID, t.RecoverID} {
+				if idv == 0 {
+					continue
+				}
+				if prev, dup := byID[idv]; dup && prev != t.Name {
+					w.What = fmt.Sprintf("%s: the catalogue lists %q and %q under the same shard id %d (first: err %v, second: err %v)", kind, prev, t.Name, idv, fr.err, second.err)
+					r.Violation("two-catalogue-entries-share-a-shard-id", w.What, w)
+					return
+				}
+				byID[idv] = t.Name
+			}
+		}
+		for _, t := range ts {
+			if t.Name == a || t.Name == b {
+				for _, old := range assigned {
+					if t.ClusterID == old {
+						w.What = fmt.Sprintf("%s: table %q got shard id %d which had been assigned before", kind, t.Name, old)
+						r.Violation("table-id-reused", w.What, w)
+						return
+					}
+				}
+			}
+		}
+		for _, t := range ts {
+			if t.Name == a || t.Name == b {
+				assigned = append(assigned, t.ClusterID)
+			}
+		}
+		r.Count("id_allocations_interleaved_at_the_sequence", 1)
+		r.Distinct("interleave_outcomes", fmt.Sprintf("%s first-err=%v second-err=%v", kind, fr.err != nil, second.err != nil))
+	}
+	r.Eval(1)
+	r.Sample(map[string]any{"kind": "interleave", "rounds": r.Pick(9, 30), "ids_assigned": len(assigned)})
 }
